@@ -2,9 +2,11 @@
 # usage: confirm_seeded.sh <id> : in a scratch worktree, confirm that the seeded change of /tmp/mut_out/<id>
 # compiles, passes the existing suite, and that its demo passes without and fails with the change.
 ID=$1
-SRC=/tmp/mut_out/$ID
+ROOT=${2:-/tmp/mut_out}
+SRC=$ROOT/$ID
 W=/tmp/cw_seed
-OUT=/tmp/confirm/$ID.txt
+TAG=${3:-}
+OUT=/tmp/confirm/$ID$TAG.txt
 mkdir -p /tmp/confirm
 [ -d $W ] || git -C /repo worktree add -f $W HEAD -q
 cd $W && git checkout -q -- . && git clean -fdq -e _b
